@@ -38,7 +38,7 @@ def call_impl(metric, ref, pred, r, ps):
         return "ZeroDivisionError"
 
 
-def one_case(ctx, ref, pred, r, ps, metric, src, before=None):
+def one_case(ctx, ref, pred, r, ps, metric, src, before=None, layouts=None):
     """before: earlier states [ref, pred] of the same two array objects, scored with the same call before in-place edits
     (recorded so that a replay can rebuild the history on one pair of array objects)"""
     flat_r, flat_p = ref.ravel(), pred.ravel()
@@ -54,6 +54,11 @@ def one_case(ctx, ref, pred, r, ps, metric, src, before=None):
            "pred": gen.arr_json(pred.astype(np.int64)), "r": r, "ps": ps, "m": metric, "src": src}
     if before:
         inp["before"] = [[gen.arr_json(a.astype(np.int64)), gen.arr_json(b.astype(np.int64))] for a, b in before]
+    if layouts:
+        # the same logical arrays, each stored in a memory layout of its own
+        inp["layouts"] = list(layouts)
+        ref, pred = relayout(ref, layouts[0]), relayout(pred, layouts[1])
+        ctx.count(f"layouts.{layouts[0]}.{layouts[1]}")
     nontriv = bool(X) and bool(Y) and X != Y
     ctx.case(inp, nontriv, sample=inp if ref.size <= 16 else None)
     ctx.count(f"metric.{metric}")
@@ -309,6 +314,22 @@ def corpus(ctx):
         one_case(ctx, ref, pred, 1, [8, 9], metric, "corpus.absentlist")
         one_case(ctx, ref, np.zeros_like(ref), None, None, metric, "corpus.emptypred")
         one_case(ctx, np.zeros_like(ref), np.zeros_like(ref), None, None, metric, "corpus.bothempty")
+    # label 0 and the empty list are labels like any other when they are asked for (background against background, nothing selected)
+    ref0 = np.array([[0, 0, 1, 1, 2, 0, 0, 3]], np.uint8)
+    pred0 = np.array([[0, 1, 1, 0, 0, 0, 2, 3]], np.uint8)
+    for metric in ("IOU", "DSC", "RVD"):
+        for r_, ps_ in ((0, 0), (0, [0]), (1, 0), (0, 1), (1, []), (0, []), (0, [0, 3]), (3, [0, 3])):
+            ctx.count("falsy_label_requested")
+            one_case(ctx, ref0, pred0, r_, ps_, metric, "corpus.falsy-labels")
+    # ready-made masks (no label selection) whose two arrays are stored in different memory layouts
+    rng = ctx.rng
+    for shape in ((7, 11), (5, 6), (3, 4, 5), (2, 9)):
+        a = (np.arange(int(np.prod(shape))).reshape(shape) % 3 == 0).astype(np.uint8)
+        b = (np.arange(int(np.prod(shape))).reshape(shape) % 4 < 2).astype(np.uint8)
+        for lay in (("C", "F"), ("F", "C"), ("T", "C"), ("C", "T"), ("F", "F"), ("neg", "F"), ("slice", "T")):
+            for metric in ("DSC", "IOU", "RVD"):
+                one_case(ctx, a, b, None, None, metric, "corpus.mixed-layouts", layouts=lay)
+                one_case(ctx, a.astype(bool), b.astype(bool), None, None, metric, "corpus.mixed-layouts", layouts=lay)
     big = np.zeros((1, 600), np.uint16)
     big[0, :300] = 300
     p = np.zeros_like(big)
@@ -420,4 +441,4 @@ def replay(ctx, rec):
         b[...] = pred
         one_case(ctx, a, b, inp.get("r"), inp.get("ps"), inp["m"], "replay")
         return
-    one_case(ctx, ref, pred, inp.get("r"), inp.get("ps"), inp["m"], "replay")
+    one_case(ctx, ref, pred, inp.get("r"), inp.get("ps"), inp["m"], "replay", layouts=tuple(inp["layouts"]) if inp.get("layouts") else None)
